@@ -140,6 +140,20 @@ func verifyFunc(w *world, fn *ssa.Function, lite bool, depth int, exclude []stri
 		}
 		g.oblige(obligation{name: "cover:" + fnKeyQ(fn) + ":some-return-reachable", kind: "cover", guard: "true", cond: cond, cover: true})
 	}
+	if c := w.contractOf(fn); c != nil && lite {
+		// vacuity guard of the order rules: a rule whose second event never occurs in the function decides nothing
+		for _, o := range c.orders {
+			seen := false
+			for _, ob := range g.obls {
+				if ob.kind == "order" && (ob.name == "order:"+fnKeyQ(fn)+":"+o.label || strings.HasPrefix(ob.name, "order:"+fnKeyQ(fn)+":"+o.label+"#")) {
+					seen = true
+				}
+			}
+			if !seen {
+				g.oblige(obligation{name: "order:" + fnKeyQ(fn) + ":" + o.label + ":event-not-found", kind: "order", guard: "true", cond: "false"})
+			}
+		}
+	}
 	if len(exclude) > 0 || len(only) > 0 {
 		var kept []obligation
 		for _, o := range g.obls {
